@@ -49,3 +49,21 @@ func init() {
 	}
 	c17.Bounds["database states (generation leg)"] = "2 / 3 secrets with 2 / 3 versions, any save fault"
 }
+
+func init() {
+	// C09's "active version number is V at that moment ... never a non-active version" needs the decision and the fetch to be one
+	// atomic step: the lock-set harness and the interleaving harness of the conditional get are its concurrency leg.
+	c09 := findProp("C09")
+	c14 := findProp("C14")
+	if c09 == nil || c14 == nil {
+		return
+	}
+	for _, h := range c14.Harnesses {
+		if h.Name == "verifHarnessC14GetConditional" || h.Name == "verifHarnessC14InterleaveGetConditional" {
+			hh := *h
+			hh.Desc = "atomicity of the conditional get: " + h.Desc
+			hh.DeadOK = map[string]string{"both-puts-retrievable": "obligation of the shared driver for a first request that is a put", "different-values-different-versions": "obligation of the shared driver for a first request that is a put"}
+			c09.Harnesses = append(c09.Harnesses, &hh)
+		}
+	}
+}
